@@ -400,20 +400,20 @@ def case_model(rng, tier, i, degen=False, name=None, force_finite=False):
         mode = str(rng.choice(DEG_MODES))
         N = int(rng.integers(1, D + 1)) if mode == 'fewframes' else int(rng.integers(2, 13))
     else:
-        N = int(rng.integers(max(2 * K + 2, D + 2), 25))
+        N = K * (D + 2) + int(rng.integers(2, 14))       # every class can keep more than D+1 frames
     if name in mm.INTEGRATION:
         lead = (int(rng.integers(1, 4)),)
     else:
         lead = tuple(int(v) for v in rng.integers(1, 4, int(rng.integers(0, 3))))
     if name == 'cbmm':
-        N = min(N, 12)
         lead = lead[:1]
     data = mm.make_data(rng, name, K, D, N, lead, separation=float(rng.choice([0.5, 2.0, 8.0])))
     if degen:
         data = degenerate(rng, name, data, mode)
     style = 'onehot' if (degen and rng.random() < 0.5 and N >= K) else ['positive', 'dirichlet'][int(rng.integers(0, 2))]
     init = mm.make_init(rng, K, N, lead, style)
-    opts = mm.sample_options(rng, name, K, N, lead, with_aligner=(rng.random() < 0.15))
+    # GreedyPermutationAlignment asserts an odd number of frequency bins ('Sure? Usually F is odd.'): only offer it then
+    opts = mm.sample_options(rng, name, K, N, lead, with_aligner=(rng.random() < 0.15 and len(lead) == 1 and lead[0] % 2 == 1))
     iters = int(rng.integers(1, 5))
     topts = trainer_options(rng, name, force_finite)
     rp = {'fn': 'model', 'model': name, 'data': {k: v for k, v in data.items() if k != 'labels'}, 'init': init,
@@ -453,6 +453,13 @@ def eval_model(rp):
     tag = '%s:%s' % (name, deg or 'regular')
     topts = dict(rp.get('trainer_opts') or {})
     T = make_trainer(name, topts)
+    seen = []                       # affiliation handed to each M-step, kept when the fit raises
+    inner = T._m_step
+
+    def keep(*a, **kw):
+        seen.append(np.array(kw['affiliation'], dtype=float))
+        return inner(*a, **kw)
+    T._m_step = keep
     try:
         np.random.seed(rp['np_seed'])
         with Recorder() as rec:
@@ -460,6 +467,15 @@ def eval_model(rp):
     except EXPLICIT as e:
         if deg:
             return None, None, None, '%s: %s' % (type(e).__name__, str(e)[:120]), False
+        # regular stream: EM itself can drive a class to 'too few frames'; an explicit exception is accepted exactly then
+        if seen:
+            sal0 = opts.get('saliency')
+            w = np.broadcast_to(seen[-1], (*lead, K, N)) * (1.0 if sal0 is None else np.asarray(sal0, dtype=float)[..., None, :])
+            neff = w.sum(-1) ** 2 / np.maximum((w ** 2).sum(-1), tiny_of(w))
+            dim = max(v.shape[-1] for v in data.values())
+            if neff.min() < dim + 1:
+                return None, None, None, '%s after a class collapsed to %.2f effective frames (<= D): %s' % (
+                    type(e).__name__, neff.min(), str(e)[:80]), False
         return ('fit raised %s on a regular input: %s' % (type(e).__name__, str(e)[:300]),
                 'fit:raises:%s:%s' % (name, type(e).__name__), None, None, False)
     except Exception as e:
@@ -577,7 +593,7 @@ def case_single(rng, tier, i, degen=False, which=None, force_finite=False):
         N = int(rng.integers(1, D + 1)) if mode == 'fewframes' else int(rng.integers(2, 13))
     else:
         N = int(rng.integers(D + 2, 30))
-    lead = () if which in ('cacg',) else tuple(int(v) for v in rng.integers(1, 4, int(rng.integers(0, 3))))
+    lead = tuple(int(v) for v in rng.integers(1, 4, int(rng.integers(0, 3))))
     if which == 'bingham':
         lead = lead[:1]
     cplx = which in ('cacg', 'watson', 'bingham')
@@ -673,8 +689,9 @@ def eval_single(rp):
         scat = np.einsum('...n,...nd,...ne->...de', c, z, z.conj())
         U, lam = np.asarray(model.covariance_eigenvectors), np.asarray(model.covariance_eigenvalues)
         pred_cacg(tag, U, lam, o['covariance_norm'], o['eigenvalue_floor'], np.abs(scat).max((-1, -2)) == 0, fails)
-        if np.all(np.isfinite(U)) and np.all(np.isfinite(lam)):
-            coq.append(coq_cacg(y, np.ones(N), q, U, lam, o['hermitize'], True, o['covariance_norm'], o['eigenvalue_floor']))
+        q = np.broadcast_to(q, (*lead, N))
+        if np.all(np.isfinite(U[li])) and np.all(np.isfinite(lam[li])):
+            coq.append(coq_cacg(y[li], np.ones(N), q[li], U[li], lam[li], o['hermitize'], True, o['covariance_norm'], o['eigenvalue_floor']))
     elif which == 'watson':
         z = unit(y, 'max')
         scat = np.einsum('...n,...nd,...ne->...de', s_all, z, z.conj())
